@@ -103,7 +103,7 @@ func (m Diagonals[T]) At(i, slots int) ([]T, error) {
 		var j int
 		if i > 0 {
 			j = i - slots
-		} else if j < 0 {
+		} else if i < 0 {
 			j = i + slots
 		} else {
 			return nil, fmt.Errorf("cannot At[0]: diagonal does not exist")
